@@ -56,6 +56,10 @@ def ekText : EK → String
 def strText : Str → String
   | .lit n => s!"str{n}"
   | .err k => ekText k
+  | .shown n => s!"str{n}"
+  | .lb => "["
+  | .rb => "]"
+  | .sep => "|"
 
 /-- `{v}` in an interpolated string -/
 def dispTop : Val → String
@@ -72,10 +76,27 @@ def dispElem : Val → String
   | .str s => "'" ++ strText s ++ "'"
   | v => dispTop v
 
+/-- display tokens → text: containers are flattened into `[` … `]`; inside a container elements
+are separated by `, ` and strings are quoted (the text of an object's `@display` is not) -/
+def toksText (ts : List Val) : String :=
+  let step := fun (st : String × Nat × Bool) (v : Val) =>
+    let (out, depth, first) := st
+    match v with
+    | .str .lb => (out ++ (if depth > 0 && !first then ", " else "") ++ "[", depth + 1, true)
+    | .str .rb => (out ++ "]", depth - 1, false)
+    | .str .sep => (out ++ "|", depth, true)
+    | v =>
+      let txt := match v with
+        | .str (.shown n) => s!"str{n}"
+        | v => if depth > 0 then dispElem v else dispTop v
+      (out ++ (if depth > 0 && !first then ", " else "") ++ txt, depth, false)
+  (ts.foldl step ("", 0, true)).1
+
 def shownText : Shown → String
   | .atom v => s!"{tyName v.ty} {dispTop v}"
   | .lst vs => "List [" ++ ", ".intercalate (vs.map dispElem) ++ "]"
-  | .parts vs => "[" ++ "|".intercalate (vs.map dispTop) ++ "]"
+  | .parts ts => "[" ++ toksText ts ++ "]"
+  | .toks top ts => s!"{tyName top.ty} {toksText ts}"
 
 def evText (e : Ev) : String :=
   match e.arg with
@@ -185,6 +206,8 @@ def parseClss : List Sexp → Option (List Cls)
   | [] => some []
   | .list [.atom "cls", a, l] :: rest => do
     pure ({ addFn := ← optNat a, ltFn := ← optNat l } :: (← parseClss rest))
+  | .list [.atom "cls", a, l, d] :: rest => do
+    pure ({ addFn := ← optNat a, ltFn := ← optNat l, dispFn := ← optNat d } :: (← parseClss rest))
   | _ => none
 
 def parseProg : Sexp → Option Prog
